@@ -2,5 +2,5 @@ SPECIFICATION Spec
 CONSTANTS N = 9
           Limits = {4, 6}
           Modes = {"original"}
-          Guard = "none"
+          Guard = "previous"
 PROPERTY Terminates
